@@ -30,6 +30,11 @@ def shape_spec(shape):
                                extra_cols=shape.get('ncols', 2))
     if shape.get('mods'):
         spec['plugins'] = ['mod_tracker']
+    if shape.get('alias_keys'):
+        # key attributes named differently from their columns: k_id = Column('id', primary_key=True)
+        for c in spec['classes'][0]['columns']:
+            if c['name'] in key_cols(shape):
+                c['attr'] = 'k_' + c['name']
     if shape.get('valtype') == 'int':
         for c in spec['classes'][0]['columns']:
             if c['name'] in val_cols(shape):
@@ -39,6 +44,15 @@ def shape_spec(shape):
 
 def key_cols(shape):
     return ['a', 'b'] if shape['key'] == 'composite' else ['id']
+
+
+def key_attrs(shape):
+    return ['k_' + c for c in key_cols(shape)] if shape.get('alias_keys') else key_cols(shape)
+
+
+def by_name(table, d):
+    """values keyed by column NAME -> keyed by Column (a column's key differs from its name when the attribute does)"""
+    return {next(c for c in table.columns if c.name == name): v for name, v in d.items()}
 
 
 def val_cols(shape):
@@ -97,7 +111,7 @@ class TableEnv(object):
         kc, vc = key_cols(self.shape), val_cols(self.shape)
         for key in live:
             d = dict(zip(kc, enc_key(self.shape, key)))
-            conn.execute(self.cls.__table__.insert().values(**d))
+            conn.execute(self.cls.__table__.insert().values(by_name(self.cls.__table__, d)))
         for key, tx, end, op, vals, mods in rows:
             d = dict(zip(kc, enc_key(self.shape, key)))
             d[self.tx_col] = tx
@@ -109,13 +123,15 @@ class TableEnv(object):
             if self.shape.get('mods'):
                 for c, m in zip(vc, mods):
                     d[c + '_mod'] = bool(m)
-            conn.execute(self.vtable.insert().values(**d))
+            conn.execute(self.vtable.insert().values(by_name(self.vtable, d)))
         conn.commit()
 
     def dump(self):
         kc, vc = key_cols(self.shape), val_cols(self.shape)
         out = []
-        for r in self.env.conn.execute(sa.select(self.vtable)).mappings():
+        cn = {c.name: c for c in self.vtable.columns}
+        for r0 in self.env.conn.execute(sa.select(self.vtable)).mappings():
+            r = {name: r0[c] for name, c in cn.items()}
             key = [dec_keycomp(self.shape, r[c]) for c in kc]
             end = r[self.end_col] if self.validity else None
             mods = [bool(r[c + '_mod']) for c in vc] if self.shape.get('mods') else []
@@ -125,7 +141,7 @@ class TableEnv(object):
         return out
 
     def key_of(self, obj):
-        return [dec_keycomp(self.shape, getattr(obj, c)) for c in key_cols(self.shape)]
+        return [dec_keycomp(self.shape, getattr(obj, c)) for c in key_attrs(self.shape)]
 
     def tx_of(self, vobj):
         return getattr(vobj, self.tx_col)
@@ -177,7 +193,7 @@ def chain_ends(rows):
     return out
 
 
-def random_shape(rng, strategy=None, mods=None, allow_custom=True):
+def random_shape(rng, strategy=None, mods=None, allow_custom=True, allow_alias=False):
     shape = {'key': rng.choice(['int', 'int', 'composite', 'str']), 'ncols': rng.choice([1, 2, 2, 3]),
              'strategy': strategy or rng.choice(['validity', 'subquery'])}
     if allow_custom and rng.random() < 0.3:
@@ -188,6 +204,9 @@ def random_shape(rng, strategy=None, mods=None, allow_custom=True):
     if mods is None:
         mods = rng.random() < 0.3
     shape['mods'] = bool(mods)
+    if allow_alias and rng.random() < 0.25:
+        # ORM-level accessors only (the schema tools take a table as a migration reflects it: keys = names)
+        shape['alias_keys'] = True
     return shape
 
 
